@@ -40,6 +40,21 @@ def buffers_of(loop):
                 b = b.args[0]
             if b not in out:
                 out.append(b)
+    # ... and buffers kept in an attribute of an object the loop works on
+    # (a reader / cursor object: self.data)
+    st0 = loop.get('start')
+    if st0 is not None:
+        for ob in st0.store.values():
+            if getattr(ob, 'kind', None) != 'inst':
+                continue
+            for v in ob.attrs.values():
+                if isinstance(v, Sym) and T.typeof(v) is not None and \
+                        T.typeof(v) <= {'bytes', 'bytearray'}:
+                    b = v
+                    while isinstance(b, Sym) and b.op == 'slice':
+                        b = b.args[0]
+                    if b not in out:
+                        out.append(b)
     return out
 
 
@@ -283,7 +298,12 @@ def _analyse(chk, ctx):
             name = short.split(' ')[0]
             if name not in cyc or seq not in it_.call_info:
                 continue
-            caller = tuple(chain[:-1])
+            # the activation of a recursive decoder this call belongs to:
+            # helper frames between it and the callee do not matter
+            up = list(chain[:-1])
+            while up and up[-1].split(' ')[0] not in cyc:
+                up.pop()
+            caller = tuple(up) if up else tuple(chain[:-1])
             groups.setdefault(caller, []).append((seq, name))
         for caller, cs in groups.items():
             ndesc += len(cs)
@@ -307,6 +327,47 @@ def _analyse(chk, ctx):
                                T.show(a1.args[1])[:60] if isinstance(
                                    a1, Sym) and a1.op == 'slice' else '0'),
                            site='pamqp/decode.py')
+    # two loops of one activation that both walk the same region (each
+    # entering the recursive decoders from the same start): the region is
+    # decoded twice per level - sizing a result by iterating it first, say
+    for it_ in runs:
+        pre_of = {}
+        for lp_ in it_.loops:
+            for nm_, pv_ in (lp_.get('pre') or {}).items():
+                pre_of[(lp_['id'], nm_)] = pv_
+        walks = {}
+        for short, chain, seq, _d in it_.calls:
+            name = short.split(' ')[0]
+            if name not in cyc or seq not in it_.call_info:
+                continue
+            a1, _k1 = it_.call_info[seq]
+            if not (isinstance(a1, Sym) and a1.op == 'slice'):
+                continue
+            base_, cur_ = a1.args[0], a1.args[1]
+            lvs = [t for t in T.subterms(cur_) if t.op == 'loopvar'] \
+                if isinstance(cur_, Sym) else []
+            if len(lvs) != 1:
+                continue
+            lid, lname = lvs[0].args[0], lvs[0].args[1]
+            start_ = pre_of.get((lid, lname))
+            if start_ is None or isinstance(start_, type(I.ABSENT)):
+                continue
+            up = list(chain[:-1])
+            while up and up[-1].split(' ')[0] not in cyc:
+                up.pop()
+            key_ = (tuple(up), base_, T.show(start_))
+            walks.setdefault(key_, set()).add(lid)
+        for key_, lids in walks.items():
+            if len(lids) > 1 and ('walks', key_[0][-1:] if key_[0] else '')\
+                    not in dseen:
+                dseen.add(('walks', key_[0][-1:] if key_[0] else ''))
+                chk.ob('C08.R', 'walks of one region in %s' % (
+                    key_[0][-1] if key_[0] else '?'), False,
+                       '%d loops of one activation enter the recursive '
+                       'decoders over the same buffer from the same start '
+                       '(%s): every nesting level decodes its content '
+                       'that many times' % (len(lids), key_[2][:40]),
+                       site='pamqp/decode.py')
     # a decoder that walks the buffer reports at least as far as it walked:
     # otherwise its caller resumes inside the region already decoded and
     # decodes it again (with nesting, the work doubles per level)
@@ -448,6 +509,61 @@ def _analyse(chk, ctx):
            else 'the package changes an interpreter limit (%s): nesting '
            'depth, and the memory held per level, is no longer bounded by '
            'the default limit' % '; '.join(lifted))
+    # regular expressions reachable from the decode side: a repeat inside
+    # an unbounded repeat (star height >= 2, e.g. (a+|b+)*) backtracks
+    # exponentially on a near-miss - 30 octets of a table key suffice
+    import re._parser as _rp
+    import re._constants as _rc
+
+    def star_height(tree):
+        best = 0
+        for op, av in tree:
+            if op in (_rc.MAX_REPEAT, _rc.MIN_REPEAT):
+                lo_, hi_, sub = av
+                inner = star_height(sub)
+                unbounded = hi_ == _rc.MAXREPEAT or (
+                    isinstance(hi_, int) and hi_ > 64)
+                best = max(best, inner + (1 if unbounded else 0))
+            elif op is _rc.SUBPATTERN:
+                best = max(best, star_height(av[3]))
+            elif op is _rc.BRANCH:
+                for alt in av[1]:
+                    best = max(best, star_height(alt))
+            elif op in (_rc.ASSERT, _rc.ASSERT_NOT):
+                best = max(best, star_height(av[1]))
+        return best
+    nre = 0
+    for mi in prog.modules.values():
+        if not mi.name.endswith(('.decode', '.frame', '.header', '.body',
+                                 '.heartbeat', '.base', '.common')):
+            continue
+        for n_ in ast.walk(mi.tree):
+            if not isinstance(n_, ast.Call) or not n_.args or \
+                    not isinstance(n_.args[0], ast.Constant) or \
+                    not isinstance(n_.args[0].value, (str, bytes)):
+                continue
+            try:
+                tgt = prog.resolve_static(mi, n_.func, mi)
+            except Exception:
+                tgt = None
+            path = tgt[1] if isinstance(tgt, tuple) and tgt and \
+                tgt[0] == 'ext' else ''
+            if not path.startswith('re.'):
+                continue
+            nre += 1
+            try:
+                h_ = star_height(_rp.parse(n_.args[0].value))
+            except Exception as err:
+                chk.undecide('C08.A', 'pattern at %s:%d' % (
+                    mi.relpath, n_.lineno), 'does not parse: %s' % err)
+                continue
+            chk.ob('C08.A', 'pattern at %s:%d' % (mi.relpath, n_.lineno),
+                   h_ <= 1, 'repeats are not nested' if h_ <= 1 else
+                   'an unbounded repeat inside an unbounded repeat (%r): '
+                   'matching a near-miss takes time exponential in its '
+                   'length' % n_.args[0].value[:60],
+                   site='%s:%d' % (mi.relpath, n_.lineno))
+    chk.units['decode_side_patterns'] = nre
     # memory kept across calls: no caching wrapper on the decode side
     from .. import models
     dfuncs = [fi for fi in prog.functions.values()
